@@ -75,7 +75,7 @@ func (g *gen) number() string {
 	return fmt.Sprint(g.r.Intn(10))
 }
 
-var litChunks = []string{"hello", " ", "wörld", "$", "%", "$$", "%%", "$${", "%%{", "a b", "日本", "\\n", "\\t", "\\\"", "\\\\", "\\u00e9", "\\U0001F600",
+var litChunks = []string{"hello", " ", "wörld", "$", "%", "$$", "%%", "$${", "%%{", "a b", "日本", "\\n", "\\t", "\\\"", "\\\\", "\\u00e9", "\\U0001F600", "\\ud800", "\\U00110000", "\\uDFFF", "\\x41", "\\x4",
 	"{", "}", "#", "//", "/*", "'", "=", "<<EOT", "é", "e\u0301", "🙂", "~", "$ {", "% {"}
 
 // quotedBody generates the inside of a "..." template.
@@ -191,7 +191,7 @@ func (g *gen) traversal() string {
 	s := g.ident()
 	n := g.r.Intn(4)
 	for i := 0; i < n; i++ {
-		switch g.r.Intn(7) {
+		switch g.r.Intn(8) {
 		case 0:
 			s += "[" + fmt.Sprint(g.r.Intn(4)) + "]"
 		case 1:
@@ -202,6 +202,9 @@ func (g *gen) traversal() string {
 			s += ".*"
 		case 4:
 			s += "[*]"
+		case 5:
+			// a key that is itself a variable (null, unknown, dynamic, wrong type ...): an IndexExpr
+			s += "[" + g.pick("a", "b", "t", "c", "nul", "dn", "u", "d", "sens", "zz", "a - 1", "\"k${a}\"") + "]"
 		default:
 			s += "." + g.pick("n", "s", "l", "o", "k", "x", "list", "zz")
 		}
@@ -534,7 +537,7 @@ var lexemes = []string{
 	"{", "}", "[", "]", "(", ")", ".", ",", "*", "/", "%", "+", "-", "=", "<", ">", "!", "?", ":", "\n", "&", "|", "~", "^", ";", "`", "'",
 	"==", "!=", ">=", "<=", "&&", "||", "...", "=>", "${", "%{", "${~", "%{~", "~}", "\"", "<<EOT\n", "<<-EOT\n", "EOT\n", "EOT", "<<", "<<-",
 	"#", "//", "/*", "*/", "\r\n", "\r", " ", "\t", "for", "in", "if", "else", "endif", "endfor", "true", "false", "null",
-	"a", "b", "foo", "x", "0", "1", "1.5", "1e", "1e5", ".5", "0x1f", "\\", "\\\"", "\\u", "\\u12", "\\U0001F600", "$", "$$", "$${", "%%", "%%{",
+	"a", "b", "foo", "x", "0", "1", "1.5", "1e", "1e5", ".5", "0x1f", "\\", "\\\"", "\\u", "\\u12", "\\U0001F600", "\\ud800", "\\UFFFFFFFF", "\\x", "\\xZ", "$", "$$", "$${", "%%", "%%{",
 	"é", "日", "\xff", "\xc3", "\xe2\x82", "\xf0\x9f", "\x00", "\xef\xbb\xbf", "\u2028", "\u0085", "“", "”", "e\u0301",
 	"\"k\"", "\"k\":", ":", "[{", "}]", "null", "-1", "1E+2", "\"${", "\"%{",
 }
